@@ -71,7 +71,7 @@ static CHEM_STATE: &str = "data-chem-state";
 pub static SPLIT_TOKEN: &str = "data-split";
 
 /// mark a new chem element that happened due to merging two leaves
-static MERGED_TOKEN: &str = "data-merged";
+pub static MERGED_TOKEN: &str = "data-merged";
 
 /// these can be in the base of an under/over script
 static CHEM_EQUATION_ARROWS: phf::Set<char> = phf_set! {
